@@ -19,6 +19,7 @@ S = 'astrodendro/structure.py'
 F = 'astrodendro/io/fits.py'
 H = 'astrodendro/io/hdf5.py'
 X = 'astrodendro/flux.py'
+A = 'astrodendro/analysis.py'
 
 # (label, file, old, new, expected: 'broken' | 'ok', a property whose obligations are looked at)
 CASES = [
@@ -64,7 +65,15 @@ CASES = [
      '        nu = si.c / wavelength', 'broken', 'C13'),
     ('flux: output unit check inverted', X, 'if not output_unit.is_equivalent(u.Jy):', 'if output_unit.is_equivalent(u.Jy):', 'broken', 'C13'),
     ('flux: K branch before Jy/beam', X, 'elif input_quantities.unit.is_equivalent(u.Jy / u.beam):', 'elif input_quantities.unit.is_equivalent(u.K) and False:', 'broken', 'C13'),
+    ('to_prune: parentless leaves handed over', D, '            parent = struct.parent\n            # deal with trunks later\n            if parent is None:\n                continue\n',
+     '            parent = struct.parent\n', 'broken', 'C07'),
+    ('two-sibling rule lost', D, 'if len(siblings) == 2:', 'if len(siblings) == 3:', 'broken', 'C08'),
+    ('trunk drop inverted', D, 'if not is_independent(leaf):', 'if is_independent(leaf):', 'broken', 'C05'),
+    ('wrap: boundary included', A, 'np.where(index_array < shape/2,', 'np.where(index_array <= shape/2,', 'broken', 'C12'),
+    ('wrap: taken when not smaller', A, 'if np.ptp(i2) < np.ptp(index_array):', 'if np.ptp(i2) <= np.ptp(index_array):', 'broken', 'C12'),
     # ---- rewrites that keep the meaning
+    ('wrap: sides flipped', A, 'np.where(index_array < shape/2,', 'np.where(shape/2 > index_array,', 'ok', 'C12'),
+    ('two-sibling rule: >= 3', D, 'elif len(siblings) > 2:', 'elif len(siblings) >= 3:', 'ok', 'C08'),
     ('flux: De Morgan', X, 'if wavelength is not None and not wavelength.unit.is_equivalent(u.m):',
      'if not (wavelength is None or wavelength.unit.is_equivalent(u.m)):', 'ok', 'C13'),
     ('min_delta child rearranged', P, '(_py(structure.height) - _py(structure.parent.height)) >= delta',
